@@ -25,6 +25,8 @@ CLAIMED = {
  "C13": ("partial: theorem stream_alloc_bound (for every input and type, length-driven allocation of the streaming decoder ≤ 5·N + 1 MiB + 1 KiB), envelope_alloc_bound, frame_alloc_bound, recursion depth ≤ 3N+3, decoded counts ≤ N; witnesses for D2 (repaired) and D3 (known). Not proved: the lazy-extent bound for unforced random-access decodes; wall time. Tie: regenerated thresholds + measured TotalAlloc of every decoding API on ≤64-byte messages with huge declared lengths, compared two-sidedly with the model's prediction and with 12 MiB + 64·N", "§5 C13", "Modelled-not-verified: bytes.Buffer growth (bounded as 4·present+1024), the Go allocator, runtime.MemStats. Generated decoders' pre-sizing (D3) is a known finding.", "Lean 4 proof over cost-instrumented model + factgen tie + measured-allocation correspondence"),
  "C14": ("partial: generated Equals is reflexive, symmetric and transitive on decoded values for every schema and type (pigeonhole lemma for the one-directional set/map loops; hash and slice representations; structs with nil handling); order (in)sensitivity and nil handling; witness that duplicates break symmetry. Not proved: Equals ⇔ ValuesAreEqual(ToWire) ⇔ structural comparison (harness oracles)", "§5 C14", "Modelled-not-verified: generated text, Go map semantics for float keys (modelled: NaN ≠ NaN, +0 = −0).", TECH),
  "C15": ("non-interference: what String()/Error()/zap show is a function of the value with every redacted (zap: also no-log) field's content erased, at any depth; redacted shows only the marker; nolog absent; others present. Tie: regenerated annotation names + harness scanning real String/Error/zap-JSON output for unique markers and labels", "§5 C15", "Modelled-not-verified: fmt and zap formatting.", TECH),
+ "C19": ("format_build_eq_core: for EVERY type shape and both requiredness rules, formatting the plugin type description equals the core generator's field type (structural induction over types); response helpers: wrap/unwrap lemmas, undeclared errors refused, nil-return boundary. Tie: gotype op vs reflected field types of generated *_Args/*_Result/helpers (go/ast), captured GenerateServiceRequest checked for self-consistency, helpers executed in the value driver", "§5 C19",
+         "Modelled-not-verified: import aliasing (named types compared as schema tokens), text/template. D14 known.", TECH),
  "C20": ("partial (run-level theorems carry NoAbort — finding D30 — and root-dir attribution — D31): each breaking edit kind flagged, identical/additive silent, order independence under permutation of definitions and of every map iteration order, exit status; D30–D32 known findings with witnesses. Tie: regenerated map-range sites and message templates + scratch git repositories run through the real thriftbreak binary (readable and JSON) and verifhook.CompareModules vs the Lean driver and a declarative source-level oracle", "§5 C20", "Modelled-not-verified: go-git tree diff / rename detection (its output — the change list — is an input of the model, obtained through a verif hook).", TECH),
 }
 REASON_WIP = "machinery under construction: model and check planned in DESIGN.md §5 but not yet committed; not claimed until its check exists"
